@@ -1,4 +1,4 @@
-"""C11 — a failure inside a server's add-version leaves the backend usable: object-store backend only.
+"""C11 — a failure inside a server's add-version leaves the backend usable: object-store backend and local on-disk backend.
 
 Real code: taskdb::sync::sync (replicas) driving the real CloudServer over the model object store; a fault
 is injected at every Service request made during one sync (error before the request, or request carried
@@ -12,6 +12,7 @@ from mirsym.models.core import val_eq, z_and, z_all, z_any, z_not
 from .common import get_interp, show, tasks_eq, ref_apply
 from .cloudworld import CloudWorld
 from .syncworld import SyncWorld, judge_convergence
+from .localsrv import LocalSrvWorld, ProcessStop
 
 PROPERTY = 'C11'
 REPLAY_RETRIES = 2
@@ -135,6 +136,124 @@ class Harness:
         return out
 
 
+
+class LocalHarness:
+    """the same experiment over the local on-disk server: real sync + real LocalServer over the rusqlite model; one fault at
+    every call into the SQL engine made during one sync x {error before the call has an effect, call durable then error,
+    call durable then process stop}; then fresh handles on the same directory, another change, 4 more syncs"""
+
+    def __init__(self, nops, name):
+        self.I = get_interp(variant='full')
+        self.nops, self.name = nops, name
+
+    def run_path(self, ctx):
+        c, I = ctx, self.I
+        w = SyncWorld(I, ctx, 2, (1,), ('p',), max_str=64)
+        lw = LocalSrvWorld(I, ctx)
+        srv = [lw.new_server(), lw.new_server()]
+
+        def sync(r, step=None):
+            res = w.sync(w.dbs[r], srv[r], client=r)
+            w.history.append(step or {'sync': r})
+            return res
+        w.do_commit(0, 1, allow_delete=False)
+        for r in (0, 1):
+            r0 = sync(r)
+            if r0.variant != 0:
+                raise Panic('initial sync failed: ' + repr(r0)[:300])
+        w.do_commit(0, 1 + c.choose(self.nops, 'n0'))
+        # --- the interrupted sync
+        state = {'n': 0, 'inj': None}
+        rows0, latest0 = len(lw.version_rows()), lw.latest_value()
+
+        def fault(what, durable):
+            if state['inj'] is not None:
+                return None
+            state['n'] += 1
+            kinds = ['before'] + (['after', 'stop'] if durable else [])
+            k = c.choose(1 + len(kinds), 'fault?')
+            if k == 0:
+                return None
+            state['inj'] = (what, kinds[k - 1], state['n'])
+            return kinds[k - 1]
+        lw.fault = fault
+        step = {'sync': 0}
+        try:
+            res = sync(0, step)
+        except ProcessStop:
+            # the process died: nothing of the sync reached the replica's storage (its transaction was never committed:
+            # that code is not run), the database keeps what was committed
+            res = None
+            w.history.append(step)
+        lw.fault = None
+        inj = state['inj']
+        if inj is not None:
+            inserted = len(lw.version_rows()) > rows0
+            moved = lw.latest_value() != latest0
+            point = 'local:add_version:after-latest' if (inserted and moved) else 'local:add_version:between' if inserted else 'local:add_version:before-insert'
+            step['fault'] = {'layer': 'local', 'point': point, 'nth': 1, 'engine_call': inj[0], 'how': inj[1], 'call_index': inj[2]}
+            inj = inj + (point,)
+
+        def wit(m):
+            d = w.witness(m)
+            d['fault'] = inj
+            d['kind'], d['server'] = 'sync', 'local'
+            return d
+        if inj is None:
+            c.cover('local: fault-free baseline')
+            if res is None or res.variant != 0:
+                c.prove(False, 'sync through the local server failed without a fault', wit, {'class': 'sync-err', 'backend': 'local', 'err': repr(res)[:200]})
+                return None
+        else:
+            c.cover('local: fault:' + inj[0] + ':' + inj[1])
+            c.cover('local: state:' + inj[3].split(':')[-1])
+        # --- after restart: fresh handles on the same directory, the other replica makes a change, everybody syncs
+        srv = [lw.new_server(), lw.new_server()]
+        w.history.append({'new_handles': True})
+        w.do_commit(1, 1)
+        for r in (1, 0, 1, 0):
+            res = sync(r)
+            if res.variant != 0:
+                c.prove(False, 'a replica could not go on synchronizing after an interrupted add-version', wit,
+                        {'class': 'stuck', 'backend': 'local', 'replica': r, 'state': inj[3] if inj else None, 'err': repr(res)[:200]})
+                return None
+        # --- the chain as served to a fresh handle, decoded
+        fresh = lw.new_server()
+        parent = 0
+        tasks = []
+        nver = 0
+        for _ in range(12):
+            r = lw.run(lw.f_get_child_version(fresh, parent))
+            if r.variant != 0:
+                c.prove(False, 'the chain cannot be read after the fault', wit, {'class': 'chain-err', 'backend': 'local', 'err': repr(r)[:160]})
+                return None
+            g = r.fields[0]
+            if g.variant == 0:
+                break
+            hs = g.fields[2]
+            blob = hs.items[0] if hasattr(hs, 'items') else hs
+            js = blob.payload
+            for o in js.src.fields[0].items:
+                ref_apply(I, tasks, clone_val(o))
+            parent = g.fields[0]
+            nver += 1
+        for r in (0, 1):
+            if w.unsynced_ops(w.dbs[r]):
+                c.prove(False, 'unsynced operations remain', wit, {'class': 'unsynced-left', 'backend': 'local'})
+                return None
+            if not c.prove(tasks_eq(w.replica_tasks(r), tasks), 'replicas do not converge to the chain after an interrupted add-version', wit,
+                           {'class': 'diverged', 'backend': 'local', 'replica': r, 'state': inj[3] if inj else None}):
+                return None
+        out = {'backend': 'local', 'fault': inj, 'versions': nver}
+        if c.want_sample:
+            m = c.get_model()
+            if m is not None:
+                out['scenario'] = wit(m)
+                out['predicted'] = {'replicas': [w.concrete_tasks(r, m) for r in (0, 1)], 'versions': nver}
+            out['_encoded'] = sorted(I.encoded)
+            out['_modelled'] = sorted(I.modelled)
+        return out
+
 def replay_scenario(v):
     return v['witness']
 
@@ -180,18 +299,24 @@ def validate_samples(sample, out):
 
 
 def required_covers(tier):
-    return ['fault-free baseline', 'fault:put:before', 'fault:put:after', 'fault:compare_and_swap:before', 'fault:compare_and_swap:after', 'fault:get:before']
+    return ['fault-free baseline', 'fault:put:before', 'fault:put:after', 'fault:compare_and_swap:before', 'fault:compare_and_swap:after', 'fault:get:before',
+            'local: fault-free baseline', 'local: fault:commit:before', 'local: fault:commit:after', 'local: fault:commit:stop', 'local: fault:execute:before',
+            'local: fault:query:before', 'local: fault:begin:before', 'local: state:before-insert', 'local: state:after-latest']
 
 
 def configs(tier):
     if tier == 'quick':
         return [dict(name='1fault', factory=lambda: Harness(1, 'q'),
-                     bounds='2 replicas syncing through the real CloudServer; one fault at every Service request of one sync (which adds 1 version of 1 op) x {error before, done then error}; afterwards fresh handles, one more change on the other replica, 4 more syncs')]
-    return [dict(name='1fault-2ops', factory=lambda: Harness(2, 't'), bounds='as quick, interrupted sync carries 1-2 ops', time_limit_s=3300)]
+                     bounds='2 replicas syncing through the real CloudServer; one fault at every Service request of one sync (which adds 1 version of 1 op) x {error before, done then error}; afterwards fresh handles, one more change on the other replica, 4 more syncs'),
+                dict(name='local-1fault', factory=lambda: LocalHarness(1, 'lq'), mir='full',
+                     bounds='local on-disk server: 2 replicas syncing through the real LocalServer; one fault at every call into the SQL engine (begin / query / execute / commit) made during one sync (which adds 1 version of 1 op) x {error before the call has an effect; for commits: durable then error, durable then process stop}; afterwards fresh handles on the same directory, one more change on the other replica, 4 more syncs')]
+    return [dict(name='1fault-2ops', factory=lambda: Harness(2, 't'), bounds='as quick, interrupted sync carries 1-2 ops', time_limit_s=3300),
+            dict(name='local-1fault-2ops', factory=lambda: LocalHarness(2, 'lt'), mir='full', bounds='local on-disk server, as quick, interrupted sync carries 1-2 ops', time_limit_s=3300)]
 
 
 ASSUMPTIONS = [
-    'claimed for the object-store backend only: the local backend (SQLite statements) and the git backend (sub-processes) cannot be executed symbolically',
+    'claimed for the object-store backend and the local on-disk backend; the git backend (sub-processes) is outside',
+    'local backend: the Rust code of LocalServer/StoredUuid is executed over a model of the SQL engine behind rusqlite (mirsym/models/sqlite.py: tables in insertion order, PRIMARY KEY uniqueness, a transaction is a private copy that becomes the committed state atomically on commit and is discarded on drop / process stop); fault points are the calls into the engine; the replay arms a cfg-guarded failpoint of the compiled LocalServer that leaves the real SQLite file in the same committed state (before the insert / between insert and latest-pointer update / after both) and runs the same history through ServerConfig::Local',
     'fault kinds per Service request: error before the request takes effect; request carried out and then an error (covers a lost reply and a process stop right after the request); "restart" = fresh CloudServer values over the same store',
     'implicit cleanup disabled here (C10), Service contract and ring primitives modelled, JSON as injective codec, in-memory replica storage',
     'replay: commits, syncs, the fault (n-th Service request of the interrupted sync, before/after) and the restart are run on the compiled Replica + CloudServer over the hook in-memory object store, and judged by the same rule (later syncs succeed, chain walkable to latest, replicas equal the chain as served)',
